@@ -53,10 +53,11 @@ VARIABLES
     fired,      \* watchers whose callback has been invoked
     closing,    \* a drop of sender or receiver has begun
     senderGone, recvGone, exited,
-    kind        \* function item -> which send operation it was given to
+    kind,       \* function item -> which send operation it was given to
+    budget      \* attempts after which a batch is given up, once observed (0 = not yet known)
 
 vars == <<l, cap, queue, acc, done, trunc, ntrunc, batch, cur, phase, lastRem, attempts,
-          lastWait, reg, fired, closing, senderGone, recvGone, exited, kind>>
+          lastWait, reg, fired, closing, senderGone, recvGone, exited, kind, budget>>
 
 SeqSet(q) == {q[i] : i \in 1..Len(q)}
 E == Rec[l]
@@ -66,7 +67,7 @@ Fresh ==
     /\ queue = <<>> /\ acc = <<>> /\ done = {} /\ trunc = {} /\ ntrunc = 0
     /\ batch = <<>> /\ cur = <<>> /\ phase = "idle" /\ lastRem = <<>> /\ attempts = 0
     /\ lastWait = 0 /\ reg = <<>> /\ fired = {} /\ closing = FALSE
-    /\ senderGone = FALSE /\ recvGone = FALSE /\ exited = FALSE /\ kind = <<>>
+    /\ senderGone = FALSE /\ recvGone = FALSE /\ exited = FALSE /\ kind = <<>> /\ budget = 0
 
 Init == l = 1 /\ cap = 1 /\ Fresh
 
@@ -76,14 +77,14 @@ Reset ==
     /\ queue' = <<>> /\ acc' = <<>> /\ done' = {} /\ trunc' = {} /\ ntrunc' = 0
     /\ batch' = <<>> /\ cur' = <<>> /\ phase' = "idle" /\ lastRem' = <<>> /\ attempts' = 0
     /\ lastWait' = 0 /\ reg' = <<>> /\ fired' = {} /\ closing' = FALSE
-    /\ senderGone' = FALSE /\ recvGone' = FALSE /\ exited' = FALSE /\ kind' = <<>>
+    /\ senderGone' = FALSE /\ recvGone' = FALSE /\ exited' = FALSE /\ kind' = <<>> /\ budget' = 0
 
 SendCall ==
     /\ IsEv("SendCall")
     /\ E.item \notin DOMAIN kind
     /\ kind' = (E.item :> E.kind) @@ kind
     /\ UNCHANGED <<cap, queue, acc, done, trunc, ntrunc, batch, cur, phase, lastRem, attempts,
-                   lastWait, reg, fired, closing, senderGone, recvGone, exited>>
+                   lastWait, reg, fired, closing, senderGone, recvGone, exited, budget>>
 
 Open == ~senderGone /\ ~recvGone
 
@@ -108,7 +109,7 @@ Send ==
           /\ E.qlen = Len(queue')
           /\ Len(queue') <= cap
     /\ UNCHANGED <<cap, done, batch, cur, phase, lastRem, attempts, lastWait, reg, fired,
-                   closing, senderGone, recvGone, exited, kind>>
+                   closing, senderGone, recvGone, exited, kind, budget>>
 
 (* C09: the fallible send enqueues iff there is room, never discards anything *)
 TrySend ==
@@ -118,12 +119,12 @@ TrySend ==
     /\ \/ /\ E.code = 0 /\ Len(queue) < cap /\ (Open \/ closing)
           /\ queue' = Append(queue, E.item) /\ acc' = Append(acc, E.item)
        \/ /\ E.code = 1 /\ Len(queue) >= cap /\ (Open \/ closing)
-          /\ UNCHANGED <<queue, acc, kind>>
+          /\ UNCHANGED <<queue, acc, kind, budget>>
        \/ /\ E.code = 2 /\ (~Open \/ closing)
-          /\ UNCHANGED <<queue, acc, kind>>
+          /\ UNCHANGED <<queue, acc, kind, budget>>
     /\ E.qlen = Len(queue')
     /\ UNCHANGED <<cap, done, trunc, ntrunc, batch, cur, phase, lastRem, attempts, lastWait,
-                   reg, fired, closing, senderGone, recvGone, exited, kind>>
+                   reg, fired, closing, senderGone, recvGone, exited, kind, budget>>
 
 (* C09: fallible / blocking sends either enqueued the item or handed it back *)
 SendRet ==
@@ -133,14 +134,14 @@ SendRet ==
     /\ E.res \in {"ok", "err-full-returned", "err-closed", "sent"}
     /\ E.res = "err-closed" => (~Open \/ closing)
     /\ UNCHANGED <<cap, queue, acc, done, trunc, ntrunc, batch, cur, phase, lastRem, attempts,
-                   lastWait, reg, fired, closing, senderGone, recvGone, exited, kind>>
+                   lastWait, reg, fired, closing, senderGone, recvGone, exited, kind, budget>>
 
 FlushReq ==
     /\ IsEv("FlushReq")
     /\ E.w \notin DOMAIN reg
     /\ reg' = (E.w :> [items |-> SeqSet(acc), obs |-> E.obs]) @@ reg
     /\ UNCHANGED <<cap, queue, acc, done, trunc, ntrunc, batch, cur, phase, lastRem, attempts,
-                   lastWait, fired, closing, senderGone, recvGone, exited, kind>>
+                   lastWait, fired, closing, senderGone, recvGone, exited, kind, budget>>
 
 (* C07: a flush reports completion only when everything accepted before the request has
    finished its final attempt or was truncated (while the receiver is alive) *)
@@ -154,14 +155,14 @@ Fired ==
     /\ Flushed(E.w)
     /\ fired' = fired \cup {E.w}
     /\ UNCHANGED <<cap, queue, acc, done, trunc, ntrunc, batch, cur, phase, lastRem, attempts,
-                   lastWait, reg, closing, senderGone, recvGone, exited, kind>>
+                   lastWait, reg, closing, senderGone, recvGone, exited, kind, budget>>
 
 FlushRet ==
     /\ IsEv("FlushRet")
     /\ E.w \in DOMAIN reg
     /\ E.ret => Flushed(E.w)
     /\ UNCHANGED <<cap, queue, acc, done, trunc, ntrunc, batch, cur, phase, lastRem, attempts,
-                   lastWait, reg, fired, closing, senderGone, recvGone, exited, kind>>
+                   lastWait, reg, fired, closing, senderGone, recvGone, exited, kind, budget>>
 
 (* C06: the receiver takes exactly the pending queue, and only when the previous batch is
    finished: batches partition the accepted sequence in order *)
@@ -172,14 +173,14 @@ Take ==
     /\ batch' = queue /\ queue' = <<>>
     /\ phase' = "taken" /\ attempts' = 0 /\ lastWait' = 0
     /\ UNCHANGED <<cap, acc, done, trunc, ntrunc, cur, lastRem, reg, fired, closing,
-                   senderGone, recvGone, exited, kind>>
+                   senderGone, recvGone, exited, kind, budget>>
 
 TakeEmpty ==
     /\ IsEv("TakeEmpty")
     /\ phase = "idle" /\ ~exited
     /\ queue = <<>>
     /\ UNCHANGED <<cap, queue, acc, done, trunc, ntrunc, batch, cur, phase, lastRem, attempts,
-                   lastWait, reg, fired, closing, senderGone, recvGone, exited, kind>>
+                   lastWait, reg, fired, closing, senderGone, recvGone, exited, kind, budget>>
 
 (* C06: the first attempt gets exactly the batch taken; a retry gets exactly the remainder
    the processor returned.  C08: bounded attempts. *)
@@ -192,20 +193,31 @@ Call ==
     /\ attempts' <= MaxAttempts
     /\ phase' = "inflight"
     /\ UNCHANGED <<cap, queue, acc, done, trunc, ntrunc, batch, lastRem, lastWait, reg, fired,
-                   closing, senderGone, recvGone, exited, kind>>
+                   closing, senderGone, recvGone, exited, kind, budget>>
 
 \* The processor's result.  After a retryable failure with a non-empty remainder the receiver
-\* either retries or gives up (its budget is not part of the statement): both are allowed,
-\* the next events decide.
+\* either retries or gives up; the size of its budget is not part of the statement, but the
+\* budget is per batch: once some batch was given up after n attempts, every batch is retried
+\* until it has had n attempts and none gets more (C06: the remainder is re-delivered; C08:
+\* each batch is attempted a bounded number of times and then given up).
 Ret ==
     /\ IsEv("Ret")
     /\ phase = "inflight"
-    /\ \/ /\ E.outcome = "retry" /\ E.rem # <<>>
+    /\ \/ /\ E.outcome = "retry" /\ E.rem # <<>>             \* will be retried
           /\ SeqSet(E.rem) \subseteq SeqSet(cur)
+          /\ budget = 0 \/ attempts < budget
           /\ phase' = "retry" /\ lastRem' = E.rem
           /\ done' = done \cup (SeqSet(cur) \ SeqSet(E.rem))
-       \/ /\ phase' = "idle" /\ lastRem' = <<>>
+          /\ budget' = budget
+       \/ /\ E.outcome = "retry" /\ E.rem # <<>>             \* given up
+          /\ recvGone \/ closing \/ budget = 0 \/ attempts = budget
+          /\ budget' = IF budget = 0 /\ ~recvGone /\ ~closing THEN attempts ELSE budget
+          /\ phase' = "idle" /\ lastRem' = <<>>
           /\ done' = done \cup SeqSet(cur)
+       \/ /\ ~(E.outcome = "retry" /\ E.rem # <<>>)          \* final result
+          /\ phase' = "idle" /\ lastRem' = <<>>
+          /\ done' = done \cup SeqSet(cur)
+          /\ budget' = budget
     /\ UNCHANGED <<cap, queue, acc, trunc, ntrunc, batch, cur, attempts, lastWait, reg, fired,
                    closing, senderGone, recvGone, exited, kind>>
 
@@ -217,13 +229,13 @@ Wait ==
        THEN /\ E.ms >= lastWait /\ lastWait' = E.ms
        ELSE /\ phase = "idle" /\ lastWait' = lastWait
     /\ UNCHANGED <<cap, queue, acc, done, trunc, ntrunc, batch, cur, phase, lastRem, attempts,
-                   reg, fired, closing, senderGone, recvGone, exited, kind>>
+                   reg, fired, closing, senderGone, recvGone, exited, kind, budget>>
 
 Closing ==
     /\ IsEv("Closing")
     /\ closing' = TRUE
     /\ UNCHANGED <<cap, queue, acc, done, trunc, ntrunc, batch, cur, phase, lastRem, attempts,
-                   lastWait, reg, fired, senderGone, recvGone, exited, kind>>
+                   lastWait, reg, fired, senderGone, recvGone, exited, kind, budget>>
 
 Closed ==
     /\ IsEv("Closed")
@@ -231,7 +243,7 @@ Closed ==
     /\ IF E.by = "sender" THEN senderGone' = TRUE /\ recvGone' = recvGone
                           ELSE recvGone' = TRUE /\ senderGone' = senderGone
     /\ UNCHANGED <<cap, queue, acc, done, trunc, ntrunc, batch, cur, phase, lastRem, attempts,
-                   lastWait, reg, fired, exited, kind>>
+                   lastWait, reg, fired, exited, kind, budget>>
 
 (* C08: exec returns only after the sender is gone, with nothing queued or in flight *)
 Exit ==
@@ -239,7 +251,7 @@ Exit ==
     /\ senderGone /\ queue = <<>> /\ phase = "idle"
     /\ exited' = TRUE
     /\ UNCHANGED <<cap, queue, acc, done, trunc, ntrunc, batch, cur, phase, lastRem, attempts,
-                   lastWait, reg, fired, closing, senderGone, recvGone, kind>>
+                   lastWait, reg, fired, closing, senderGone, recvGone, kind, budget>>
 
 (* end of a trace; a terminal trace (sender dropped, receiver ran to completion) must have
    processed everything and fired every callback exactly once *)
@@ -250,7 +262,7 @@ End ==
           /\ \A i \in SeqSet(acc) : i \in done \cup trunc
           /\ \A w \in DOMAIN reg : reg[w].obs => w \in fired
     /\ UNCHANGED <<cap, queue, acc, done, trunc, ntrunc, batch, cur, phase, lastRem, attempts,
-                   lastWait, reg, fired, closing, senderGone, recvGone, exited, kind>>
+                   lastWait, reg, fired, closing, senderGone, recvGone, exited, kind, budget>>
 
 Next ==
     \/ Reset \/ SendCall \/ Send \/ TrySend \/ SendRet \/ FlushReq \/ Fired \/ FlushRet \/ Take \/ TakeEmpty
